@@ -161,6 +161,22 @@ func init() {
 		}
 		return "", nil
 	}
+	replayers["faultwrite18"] = func(rep map[string]interface{}) (string, error) {
+		word, err := parseWord(rep["op"])
+		if err != nil || len(word) != 1 {
+			return "", fmt.Errorf("bad op: %v", err)
+		}
+		base, err := explore.GetBase(fmt.Sprint(rep["base"]), cfgByName(fmt.Sprint(rep["cfg"])), 0)
+		if err != nil {
+			return "", err
+		}
+		explore.PinSeed(0)
+		_, v := c18FaultWord(explore.NewLocalCtx("C18"), base, fmt.Sprint(rep["base"]), fmt.Sprint(rep["cfg"]), word[0], int(numField(rep, "fault_at")), boolField(rep, "partial"))
+		if v != nil {
+			return v.What, nil
+		}
+		return "", nil
+	}
 	replayers["panic"] = replayers["word"]
 	replayers["slice14"] = func(rep map[string]interface{}) (string, error) {
 		base, err := explore.GetBase(fmt.Sprint(rep["base"]), cfgByName(fmt.Sprint(rep["cfg"])), 0)
